@@ -271,6 +271,15 @@ def build_specs(S, tier, rng):
                 # let the failure happen while the others are slow: exercises the cancellation paths
                 d = {pid(i): 5 for i in needed_p if i != f and i not in vids}
                 specs.append(dict(base, kind="fail", fail=f, Fail={pid(f): True}, DelayIn=d, Timeout=1500))
+        # double faults: one failing provider in a goroutine and one on the injector's own goroutine (both orders)
+        if len(E["threads"]) > 1:
+            main_heads = set(c["head"] for c in E["threads"][0])
+            f_main = [i for i in fallible if "P%d" % i in main_heads]
+            f_go = [i for i in fallible if "P%d" % i not in main_heads]
+            pairs = [(a, b) for a in f_go for b in f_main][: (1 if tier == "quick" else 4)]
+            for a, b in pairs:
+                for slow in (a, b):
+                    specs.append(dict(base, kind="fail2", fail=[a, b], Fail={pid(a): True, pid(b): True}, DelayIn={pid(slow): 5}, Timeout=1500))
         if 0 in E["args"]:
             to = 500 if kc["K7"] else 1500
             specs.append(dict(base, kind="cancel", CancelOn="before", Timeout=to))
@@ -384,6 +393,25 @@ def judge_runtime(R, S, tier, seed, props):
                 fid = "K8-main-error-return-leaks-goroutine" if (kc["K8"] and main_fail) else None
                 viol("C08", fid, "%s: after the injector returned (%s failed) %d goroutine(s) remain blocked: %s" % (
                     sp["Name"], pid(f), rs["Leaked"], [a[:60] for a in (rs.get("LeakedAt") or [])][:2]))
+        elif sp["kind"] == "fail2":
+            fa, fb = sp["fail"]            # fa runs in a goroutine, fb on the injector's own goroutine
+            if not rs["Returned"]:
+                viol("C06", None, "%s: providers %s and %s fail and the injector does not return" % (sp["Name"], pid(fa), pid(fb)))
+            elif failed:
+                if not rs.get("Err"):
+                    viol("C06", None, "%s: providers %s failed but the injector returned no error" % (sp["Name"], failed))
+                elif rs["Err"] not in ["prov:" + x for x in failed]:
+                    fid = "K6-main-ctx-wait-substitutes-error" if (kc["K6"] and rs["Err"] == "ctx:canceled") else None
+                    viol("C06", fid, "%s: providers %s failed but the injector returned %s" % (sp["Name"], failed, rs["Err"]))
+            if rs["Returned"] and rs.get("Leaked", 0) > 0:
+                # a failure recorded by the errgroup cancels the derived context, which releases every ctx-aware wait:
+                # with a goroutine provider's failure on record nothing may stay blocked, whatever the main thread did
+                if pid(fa) in failed:
+                    viol("C08", None, "%s: %s failed in a goroutine and %s on the injector's goroutine; after the injector returned %d goroutine(s) remain blocked: %s" % (
+                        sp["Name"], pid(fa), pid(fb), rs["Leaked"], [a[:60] for a in (rs.get("LeakedAt") or [])][:2]))
+                else:
+                    fid = "K8-main-error-return-leaks-goroutine" if (kc["K8"] and pid(fb) in failed) else None
+                    viol("C08", fid, "%s: after the injector returned (%s failed) %d goroutine(s) remain blocked" % (sp["Name"], failed, rs["Leaked"]))
         elif sp["kind"] == "cancel":
             if not rs["Returned"]:
                 fid = "K7-no-error-result-hangs-on-cancel" if kc["K7"] else None
@@ -425,7 +453,7 @@ def run_failure_property(prop, tier, seed, note):
     multi = sum(1 for k, l in S["ok"] if " | " in S["model"][k] or "go=[]" not in S["model"][k])
     R.coverage.update({"evaluations": n, "distinct_nontrivial": len(set(S["extract"].values())), "programs": len(S["ok"]), "traces_validated_against_impl": n,
                        "disagreements_checked": len(diffs), "runs_by_kind": dict(stats) if stats else {}, "multi_threaded_programs": multi,
-                       "rule": "every model-accepted seeded declaration is rendered, generated by the real CLI, compiled, and run under: fault-free (plain and with random provider latencies), each needed fallible provider failing alone (fast and while the others are slow), cancellation before the call and at provider entries; distinct = distinct emitted structures; non-trivial = every run with >= 1 goroutine, a failure or a cancellation"})
+                       "rule": "every model-accepted seeded declaration is rendered, generated by the real CLI, compiled, and run under: fault-free (plain and with random provider latencies), each needed fallible provider failing alone (fast and while the others are slow), pairs of failures (one in a goroutine, one on the injector's goroutine, both orders), cancellation before the call and at provider entries; distinct = distinct emitted structures; non-trivial = every run with >= 1 goroutine, a failure or a cancellation"})
     R.assumptions = [note, "schedules of the real runtime are steered only through provider latencies, failures and cancellation points; the model predicts a set of outcomes and the run must satisfy the property"]
     return R.finish("cd lean && lake build KV.Props.%s && lake env lean <audit of Props/%s theorems>" % (prop, prop), TRUSTED)
 
